@@ -180,6 +180,14 @@ func (c *Ctx) Pkg(rel string) *packages.Package {
 	return p
 }
 
+// PkgOf: the loaded package behind a types.Package (nil for packages outside the load).
+func (c *Ctx) PkgOf(tp *types.Package) *packages.Package {
+	if tp == nil {
+		return nil
+	}
+	return c.All[tp.Path()]
+}
+
 func (c *Ctx) ModulePkgs() []*packages.Package {
 	var out []*packages.Package
 	for _, p := range c.All {
